@@ -75,10 +75,12 @@ class Lemma:
 
 
 class ClassDecl:
-    def __init__(self, name, fields, inv=None):
+    def __init__(self, name, fields, inv=None, make=None, gen=None):
         self.name = name
         self.fields = fields
         self.inv = inv
+        self.make = make  # native constructor from a dict of field values (replay / search)
+        self.gen = gen  # optional native generator rng -> instance
 
 
 class SpecFn:
@@ -112,8 +114,8 @@ class Registry:
         self.lemmas[name] = l
         return l
 
-    def declare_class(self, name, inv=None, **fields):
-        self.classes[name] = ClassDecl(name, fields, inv)
+    def declare_class(self, name, inv=None, make=None, gen=None, **fields):
+        self.classes[name] = ClassDecl(name, fields, inv, make, gen)
 
     def spec(self, name, smt, native, doc=""):
         self.spec_functions[name] = SpecFn(name, smt, native, doc)
